@@ -285,6 +285,27 @@ void HListener::on_accept(bool reconnect)
 	std::string addr(get_fd()->LastChallengeSuccessAddress, strnlen(get_fd()->LastChallengeSuccessAddress, sizeof(get_fd()->LastChallengeSuccessAddress)));
 	emit("accept %d %d %s", id, reconnect ? 1 : 0, addr.empty() ? "-" : addr.c_str());
 	auto key = std::make_pair(id, addr);
+	if (reconnect)
+	{
+		// the sample's policy (udp_utcp_listener::on_accept): the connection whose authorised cookie matches is re-bound to the new address
+		for (auto& kv : g_eps)
+		{
+			HConn* c = dynamic_cast<HConn*>(kv.second);
+			if (c && does_restarted_handshake_match(c))
+			{
+				for (auto rit = g_routes.begin(); rit != g_routes.end();)
+					if (rit->second == c->id)
+						rit = g_routes.erase(rit);
+					else
+						++rit;
+				g_routes[key] = c->id;
+				emit("rebind %d %s", c->id, addr.c_str());
+				accept(c, true);
+				break;
+			}
+		}
+		return;
+	}
 	auto it = g_onaccept.find(key);
 	if (it != g_onaccept.end() && !reconnect)
 	{
@@ -425,11 +446,14 @@ static Bytes hs_encode(const HsFields& f, const uint8_t* extra, unsigned padbyte
 	}
 	if (f.curver >= 2)
 		bitbuf_write_bytes(&wr, &f.netver, 4);
-	bitbuf_write_bit(&wr, (uint8_t)f.sid);
-	bitbuf_write_bytes(&wr, f.ts, 8);
-	bitbuf_write_bytes(&wr, f.cookie, 20);
-	if (extra)
-		bitbuf_write_bytes(&wr, extra, 20);
+	if (f.type != 4) // a restart-handshake request (type 4) carries no secret id / timestamp / cookie
+	{
+		bitbuf_write_bit(&wr, (uint8_t)f.sid);
+		bitbuf_write_bytes(&wr, f.ts, 8);
+		bitbuf_write_bytes(&wr, f.cookie, 20);
+		if (extra)
+			bitbuf_write_bytes(&wr, extra, 20);
+	}
 	for (unsigned i = 0; i < padbytes; ++i)
 	{
 		uint8_t z = 0;
@@ -938,7 +962,7 @@ int main(int argc, char** argv)
 				deliver_conn(c, d, op[0] == 'w');
 			}
 		}
-		else if (op == "dla" || op == "wdla")
+		else if (op == "dla" || op == "wdla" || op == "hsdla") // hsdla: datagrams of at most 4 bytes are lost on the way
 		{
 			int dst, src;
 			is >> dst >> src;
@@ -953,6 +977,8 @@ int main(int argc, char** argv)
 					if ((long)s->cur > m)
 						m = (long)s->cur;
 					Bytes d = s->outbox[s->cur++];
+					if (op == "hsdla" && d.size() <= 4)
+						continue;
 					deliver_conn(c, d, op[0] == 'w');
 				}
 			}
